@@ -36,7 +36,7 @@ impl Axecutor {
             Operand::Register(r) => self.reg_read_8(r)?,
             Operand::Memory(m) => self.mem_read_8(self.mem_addr(m))?,
             _ => fatal_error!("Invalid operand {:?} for Idiv_rm8", op),
-        } as i16;
+        } as u8 as i8 as i16;
 
         if src_val == 0 {
             return Err(AxError::from(format!(
@@ -44,7 +44,15 @@ impl Axecutor {
             )));
         }
 
-        let (quotient, remainder) = (ax / src_val, ax % src_val);
+        // #DE: the quotient does not fit into the destination (this includes MIN / -1)
+        let (quotient, remainder) = match (ax.checked_div(src_val), ax.checked_rem(src_val)) {
+            (Some(q), Some(r)) if q >= i8::MIN as _ && q <= i8::MAX as _ => (q, r),
+            _ => {
+                return Err(AxError::from(format!(
+                    "Divide error in Idiv_rm8: quotient does not fit into the destination"
+                )))
+            }
+        };
 
         self.reg_write_8(AL, quotient as u8 as u64)?;
         self.reg_write_8(AH, remainder as u8 as u64)?;
@@ -64,7 +72,7 @@ impl Axecutor {
             Operand::Register(r) => self.reg_read_16(r)?,
             Operand::Memory(m) => self.mem_read_16(self.mem_addr(m))?,
             _ => fatal_error!("Invalid operand {:?} for Idiv_rm16", op),
-        } as i32;
+        } as u16 as i16 as i32;
 
         if src_val == 0 {
             return Err(AxError::from(format!(
@@ -75,7 +83,15 @@ impl Axecutor {
         let dst_val =
             (self.reg_read_16(AX)? as u32 | ((self.reg_read_16(DX)? as u32) << 16)) as i32;
 
-        let (quotient, remainder) = (dst_val / src_val, dst_val % src_val);
+        // #DE: the quotient does not fit into the destination (this includes MIN / -1)
+        let (quotient, remainder) = match (dst_val.checked_div(src_val), dst_val.checked_rem(src_val)) {
+            (Some(q), Some(r)) if q >= i16::MIN as _ && q <= i16::MAX as _ => (q, r),
+            _ => {
+                return Err(AxError::from(format!(
+                    "Divide error in Idiv_rm16: quotient does not fit into the destination"
+                )))
+            }
+        };
 
         self.reg_write_16(AX, quotient as u16 as u64)?;
         self.reg_write_16(DX, remainder as u16 as u64)?;
@@ -95,7 +111,7 @@ impl Axecutor {
             Operand::Register(r) => self.reg_read_32(r)?,
             Operand::Memory(m) => self.mem_read_32(self.mem_addr(m))?,
             _ => fatal_error!("Invalid operand {:?} for Idiv_rm32", op),
-        } as i64;
+        } as u32 as i32 as i64;
 
         if src_val == 0 {
             return Err(AxError::from(format!(
@@ -105,7 +121,15 @@ impl Axecutor {
 
         let dst_val = (self.reg_read_32(EAX)? | (self.reg_read_32(EDX)? << 32)) as i64;
 
-        let (quotient, remainder) = (dst_val / src_val, dst_val % src_val);
+        // #DE: the quotient does not fit into the destination (this includes MIN / -1)
+        let (quotient, remainder) = match (dst_val.checked_div(src_val), dst_val.checked_rem(src_val)) {
+            (Some(q), Some(r)) if q >= i32::MIN as _ && q <= i32::MAX as _ => (q, r),
+            _ => {
+                return Err(AxError::from(format!(
+                    "Divide error in Idiv_rm32: quotient does not fit into the destination"
+                )))
+            }
+        };
 
         self.reg_write_32(EAX, quotient as u32 as u64)?;
         self.reg_write_32(EDX, remainder as u32 as u64)?;
@@ -136,7 +160,15 @@ impl Axecutor {
         let dst_val =
             (self.reg_read_64(RAX)? as u128 | ((self.reg_read_64(RDX)? as u128) << 64)) as i128;
 
-        let (quotient, remainder) = (dst_val / src_val, dst_val % src_val);
+        // #DE: the quotient does not fit into the destination (this includes MIN / -1)
+        let (quotient, remainder) = match (dst_val.checked_div(src_val), dst_val.checked_rem(src_val)) {
+            (Some(q), Some(r)) if q >= i64::MIN as _ && q <= i64::MAX as _ => (q, r),
+            _ => {
+                return Err(AxError::from(format!(
+                    "Divide error in Idiv_rm64: quotient does not fit into the destination"
+                )))
+            }
+        };
 
         self.reg_write_64(RAX, quotient as u64)?;
         self.reg_write_64(RDX, remainder as u64)?;
